@@ -71,7 +71,7 @@ theorem DLog.src (s : Nat) (cl : Client) : ∀ a ∈ srcActs s, ∀ st, a.guard 
         exact a3
       · intro hc hd; have := d3 hc hd; simpa [logpos] using this
       · exact d4
-  all_goals (first | (constructor <;> (first | assumption | ((try simp only [logpos] at *) <;> grind))) | (trace_state; sorry))
+  all_goals (first | (constructor <;> (first | assumption | ((try simp only [logpos] at *) <;> grind))))
 theorem DLog.flt (s : Nat) (cl : Client) : ∀ a ∈ fltActs, ∀ st, a.guard st = true → DLog s st cl → DLog s (a.upd st) cl := by
   intro a ha st hg h
   obtain ⟨d1, d2, d3, d4⟩ := h
@@ -118,7 +118,7 @@ theorem DLog.snk (s : Nat) (cl : Client) (rs : DevState) : ∀ a ∈ snkActs s, 
       congr 1; omega
     · intro _ _; simp [logpos]
     · intro hc h2 h4; have := t1 (by omega) h4; rw [hg.1] at this; cases this
-  all_goals (first | (constructor <;> (first | assumption | ((try simp only [logpos, snkHold] at *) <;> grind))) | (trace_state; sorry))
+  all_goals (first | (constructor <;> (first | assumption | ((try simp only [logpos, snkHold] at *) <;> grind))))
 
 /-- what each client family has to establish -/
 def DLog.Kept (a : Act RT) : Prop :=
